@@ -17,6 +17,12 @@
 //    off and hung below another node by forward links / children head only) followed by mpt_gnode_relink; mpt_parse_config
 //    with a handler calling mpt_node_append, seeded like mpt_parse_node (current node = target, previous operation =
 //    section start), on populated and empty targets: the parsed elements go behind the children the target has.
+//    Allocation-failure injection (engine/vp_alloc.h; about one case in eight): for mpt_node_new, node/list/tree clone and the
+//    three ways of parsing a text into a node the allocations of the undisturbed call are counted on a throw-away twin, then
+//    the call runs with the k-th library allocation (k drawn in 1..n) failing. Oracle: error or complete success; a refused
+//    clone leaves nothing behind (cloned values released once, nodes: leak oracle), the sources are untouched; a failed
+//    mpt_parse_node / mpt_node_parse leaves the target as it was, a failed mpt_node_append run leaves the elements appended
+//    before the failure (complete, a prefix of the text); all invariants hold; no sanitizer report.
 //    A share of the nodes is named by binary identifier data (charset 0, 3 bytes inline or 21/24/85/300 bytes), derived
 //    from the name draws; clones are compared with mpt_identifier_inequal and byte by byte.
 //    Preconditions taken from the callers in /repo: the inserted node is detached (no parent/next/prev), the target is
@@ -603,6 +609,41 @@ static void bindParsed(Ctx &c, World &w, Model &E, int parent, node *first, cons
   VP_CHECK(c, fi == fresh.size(), "parse-shape", "after mpt_parse_node node %d has %zu new children, the text describes %zu", parent, fi, fresh.size());
 }
 
+// path handler that hands every element to mpt_node_append (what mpt_parse_node's own handler does)
+static int appendHandler(void *ctx, const path *p, const value *val, int last, int curr) {
+  node **pos = (node **)ctx, *next = mpt_node_append(*pos, p, val, last, curr);
+  if (!next) return BadOperation;
+  *pos = next;
+  return 0;
+}
+// like bindParsed, for a parse that stopped half-way (allocation failure): the elements that were appended before the
+// stop are there, complete and in text order; what is missing is collected in `absent`
+static void bindParsedPrefix(Ctx &c, World &w, Model &E, int parent, node *first, const std::set<const node *> &old, std::vector<int> &absent) {
+  std::vector<int> fresh;
+  for (int k : E.n[parent].kids) if (!E.n[k].p) fresh.push_back(k);
+  size_t fi = 0, steps = 0;
+  for (node *q = first; q; q = q->next) {
+    VP_CHECK(c, ++steps <= 200, "cycle@node_append", "children list of node %d does not end after the failed parse", parent);
+    VP_CHECK(c, !__asan_region_is_poisoned(q, sizeof(node)), "dangling-link@node_append", "after the failed parse the children list of node %d runs through released memory", parent);
+    if (old.count(q)) continue;
+    VP_CHECK(c, fi < fresh.size(), "parse-shape", "after the failed parse node %d has more new children than the text describes (%zu)", parent, fresh.size());
+    int s = fresh[fi++];
+    MNode &mn = E.n[s];
+    const char *id = mpt_node_ident(q);
+    VP_CHECK(c, id && mn.name == id, "parse-content", "element %zu appended below node %d before the failure is named '%.20s', the text says '%s'", fi - 1, parent, id ? id : "(none)", mn.name.c_str());
+    if (mn.vkind == 2) {
+      size_t len = 0;
+      const char *d = q->_meta ? mpt_node_data(q, &len) : 0;
+      VP_CHECK(c, d && mn.text == std::string(d, strnlen(d, len)), "parse-content", "element '%s' appended below node %d before the failure has value '%.20s', the text says '%s'", mn.name.c_str(), parent, d ? d : "(none)", mn.text.c_str());
+    } else VP_CHECK(c, !q->_meta, "parse-content", "section '%s' appended below node %d before the failure has a value", mn.name.c_str(), parent);
+    mn.p = q;
+    mn.mt = (metatype *)q->_meta;
+    w.ever.push_back(q);
+    bindParsedPrefix(c, w, E, s, q->children, old, absent);
+  }
+  for (; fi < fresh.size(); fi++) E.subtree(fresh[fi], absent);
+}
+
 // ---------------------------------------------------------------------------------------------------------------
 static void run(Ctx &c) {
   World w;
@@ -1040,8 +1081,189 @@ static void run(Ctx &c) {
     E = m;
     std::vector<int> owners2;
     for (int s : live) if (!m.n[s].kids.empty()) owners2.push_back(s);
-    // (appended weight: draws below 8 keep their meaning)
-    switch (c.weighted({3, 2, 3, 3})) {
+    // (appended weights: draws below 11 keep their meaning)
+    switch (c.weighted({3, 2, 3, 3, 4})) {
+      case 4: {  // allocation-failure injection: the k-th allocation the library makes during the call returns NULL
+        size_t sub = c.weighted({1, 2, 3, 4, 3, 2, 3});  // node_new, node/list/tree clone, parse_node, node_parse, node_append
+        if (sub == 0) {
+          size_t len = c.choose<size_t>({0, 5, 100, 300});
+          long f0 = alloc_failures();
+          alloc_fail_after(1);
+          node *p = mpt_node_new(len);
+          alloc_fail_after(0);
+          c.logf("  inject: node_new(%zu) with its allocation failing -> %s", len, p ? "a node" : "NULL");
+          if (p) mpt_node_destroy(p);
+          VP_CHECK(c, alloc_failures() > f0 && !p, "inject@node_new", "mpt_node_new returned a node although its only allocation failed");
+          settle(c, w, E, none, nobody, "node_new(alloc failure)");
+          c.label("inject:node_new");
+          break;
+        }
+        if (sub <= 3) {
+          int n = pickOf(c, live);
+          int kind = (int)sub - 1;
+          const char *opn = kind == 0 ? "node_clone" : kind == 1 ? "list_clone" : "tree_clone";
+          std::vector<int> srcs;
+          if (kind == 1) { const std::vector<int> &l = m.listOfC(n); srcs.assign(std::find(l.begin(), l.end(), n), l.end()); }
+          else srcs.push_back(n);
+          size_t total = 0;
+          bool ok = true;
+          int depth = 0;
+          for (int s : srcs) {
+            if (kind == 0) total += 1; else { std::vector<int> t; m.subtree(s, t); total += t.size(); depth = std::max(depth, m.depthBelow(s)); }
+            if (!clonable(m, s, kind != 0)) ok = false;
+          }
+          if (live.size() + total > MaxLive) { c.label("skip:clone-too-big"); break; }
+          auto cloneIt = [&]() { return kind == 0 ? mpt_node_clone(m.n[n].p) : kind == 1 ? mpt_list_clone(m.n[n].p) : mpt_tree_clone(m.n[n].p); };
+          // allocations of an undisturbed clone of the same structure, on a throw-away copy
+          size_t metas0 = w.metas.size();
+          alloc_fail_after(0);
+          node *twin = cloneIt();
+          long nalloc = alloc_calls();
+          for (node *q = twin; q;) { node *nx = mpt_node_unlink(q); node *r = mpt_node_destroy(q); VP_CHECK(c, r == 0, "return@node_destroy", "destroy of a throw-away clone refused"); q = nx; }
+          for (size_t i = metas0; i < w.metas.size(); i++) VP_CHECK(c, w.metas[i].released == 1, tagAt("value-released", opn).c_str(), "value of the throw-away clone was released %d times", w.metas[i].released);
+          if (nalloc < 1) { c.label("skip:inject-no-allocation"); break; }
+          long k = 1 + (long)c.pick((size_t)nalloc);
+          size_t metas1 = w.metas.size();
+          long f0 = alloc_failures();
+          alloc_fail_after(k);
+          node *q = cloneIt();
+          alloc_fail_after(0);
+          bool fired = alloc_failures() > f0;
+          std::string opname = std::string(opn) + "(alloc failure)";
+          if (c.verbose()) c.logf("  inject: %s(%d) sources %s, %zu nodes, allocation %ld of %ld fails%s -> %s", opn, n, showv(srcs).c_str(), total, k, nalloc, fired ? "" : " (not reached)", q ? "a clone" : "NULL");
+          c.label(kind == 0 ? "inject:node_clone" : kind == 1 ? "inject:list_clone" : "inject:tree_clone");
+          if (!q) {
+            // refused: nothing may be left behind (values cloned on the way are released once; nodes: leak oracle of the engine)
+            for (size_t i = metas1; i < w.metas.size(); i++)
+              VP_CHECK(c, w.metas[i].released == 1, tagAt("clone-refusal-leak", opn).c_str(), "%s failed (allocation %ld of %ld) but a value cloned on the way was released %d times", opn, k, nalloc, w.metas[i].released);
+            VP_CHECK(c, fired || !ok, tagAt("clone-null", opn).c_str(), "%s returned NULL although no allocation failed and all values are clonable", opn);
+            settle(c, w, E, none, nobody, opname.c_str());
+            c.label("inject:refused");
+            if (depth >= 1) nt = true;
+            break;
+          }
+          VP_CHECK(c, ok, tagAt("clone-incomplete", opn).c_str(), "%s returned a clone although a value inside refuses to be cloned", opn);
+          std::set<const node *> seen;
+          std::vector<int> tops;
+          node *prev = 0;
+          for (int s : srcs) {
+            VP_CHECK(c, q != 0, tagAt("clone-shape", opn).c_str(), "%s (allocation %ld of %ld failed): cloned list is shorter than the source", opn, k, nalloc);
+            int ns = adoptClone(c, w, E, q, s, kind != 0, 0, prev, seen, opn);
+            tops.push_back(ns);
+            prev = q;
+            q = q->next;
+          }
+          VP_CHECK(c, q == 0, tagAt("clone-shape", opn).c_str(), "%s: clone continues behind the cloned sequence", opn);
+          E.tops.push_back(tops);
+          settle(c, w, E, none, nobody, opname.c_str());
+          c.label("inject:survived");
+          break;
+        }
+        // the three ways of parsing a text into a node
+        int flavour = (int)sub - 4;
+        const char *opn = flavour == 0 ? "parse_node" : flavour == 1 ? "node_parse" : "node_append";
+        int R = (!owners2.empty() && c.chance(200)) ? pickOf(c, owners2) : pickOf(c, live);
+        std::vector<std::string> names = {"a", "b", "c", "ab", "d"};
+        for (int k : m.n[R].kids) if (m.n[k].named && m.n[k].name.size() <= 2 && m.n[k].name.find('.') == std::string::npos) names.push_back(m.n[k].name);
+        std::vector<PNode> tree = drawPTree(c, names, 0, 4);
+        std::string text;
+        renderPTree(c, tree, text, 0);
+        size_t fresh = pcount(tree);
+        if (live.size() + fresh > MaxLive) { c.label("skip:parse-too-big"); break; }
+        auto parseInto = [&](node *target) -> int {
+          if (flavour == 1) {
+            std::string copy = text;
+            FILE *fd = fmemopen(&copy[0], copy.size(), "r");
+            if (!fd) return -1000;
+            int r = mpt_node_parse(target, fd, 0, 0, 0);
+            fclose(fd);
+            return r;
+          }
+          TextSource src;
+          src.text = text;
+          CObj<parser_context> pc;
+          pc->src.getc = TextSource::getc;
+          pc->src.arg = &src;
+          pc->src.line = 1;
+          pc->name.sect = 0xff;
+          pc->name.opt = 0xff;
+          if (flavour == 0) return mpt_parse_node(target, pc, 0);
+          CObj<parser_format> pf;
+          input_parser_t fn = mpt_parse_next_fcn(mpt_parse_format(pf, 0));
+          pc->prev = parser_context::Section;
+          node *pos = target;
+          return mpt_parse_config(fn, pf.get(), pc, appendHandler, &pos);
+        };
+        // allocations of the undisturbed parse, on a throw-away target
+        node *twin = mpt_node_new(0);
+        VP_CHECK(c, twin, "new-null", "mpt_node_new returned NULL");
+        alloc_fail_after(0);
+        int r0 = parseInto(twin);
+        long nalloc = alloc_calls();
+        mpt_node_clear(twin);
+        mpt_node_destroy(twin);
+        VP_CHECK(c, r0 >= 0, "parse-refused", "%s refused a well-formed text (%d)", opn, r0);
+        if (nalloc < 1) { c.label("skip:inject-no-allocation"); break; }
+        long k = 1 + (long)c.pick((size_t)nalloc);
+        long f0 = alloc_failures();
+        alloc_fail_after(k);
+        int r = parseInto(m.n[R].p);
+        alloc_fail_after(0);
+        bool fired = alloc_failures() > f0;
+        std::string opname = std::string(opn) + "(alloc failure)";
+        if (c.verbose()) { std::string shown = text; for (auto &ch : shown) if (ch == '\n') ch = '|'; c.logf("  inject: %s(target=%d) text \"%s\" (%zu elements), allocation %ld of %ld fails%s -> %d", opn, R, shown.c_str(), fresh, k, nalloc, fired ? "" : " (not reached)", r); }
+        c.label(flavour == 0 ? "inject:parse_node" : flavour == 1 ? "inject:node_parse" : "inject:node_append");
+        std::set<const node *> old;
+        for (int s : live) old.insert(m.n[s].p);
+        bool hadKids = !m.n[R].kids.empty();
+        std::set<int> W;
+        std::vector<int> gone;
+        if (r < 0) {
+          VP_CHECK(c, fired, "parse-refused", "%s refused a well-formed text (%d) although no allocation failed", opn, r);
+          if (flavour == 2) {
+            // no promise to undo: what was appended before the failure stays, complete and in text order
+            size_t base = E.n.size();
+            std::vector<int> kids = addParsed(E, tree, R);
+            for (int kk : kids) E.n[R].kids.push_back(kk);
+            std::vector<int> absent;
+            bindParsedPrefix(c, w, E, R, m.n[R].p->children, old, absent);
+            std::set<int> gap(absent.begin(), absent.end());
+            int firstAbsent = absent.empty() ? -1 : *gap.begin();
+            for (size_t s2 = base; s2 < E.n.size(); s2++)
+              if (!gap.count((int)s2)) VP_CHECK(c, firstAbsent < 0 || (int)s2 < firstAbsent, "parse-shape", "after the failed parse element %zu of the text is there although an earlier one (%d) is missing", s2 - base, firstAbsent - (int)base);
+            for (int a : absent) { E.n[a].live = false; int pa = E.n[a].parent; if (pa >= 0) { auto &kv = E.n[pa].kids; kv.erase(std::remove(kv.begin(), kv.end(), a), kv.end()); } }
+            c.label(absent.size() < fresh ? "inject:append-partial" : "inject:append-nothing");
+          }
+          // parse_node / node_parse: the target is as it was (mpt_parse_node clears what it built, mpt_node_parse puts the old
+          // children back)
+          settle(c, w, E, none, nobody, opname.c_str());
+          c.label("inject:refused");
+          if (hadKids) nt = true;
+          break;
+        }
+        // went through (the failing allocation was not needed, or was compensated): the complete result, as without injection
+        if (flavour == 0) {
+          std::vector<int> top = addParsed(E, tree, -1);
+          E.tops.push_back(top);
+          bool deep = false;
+          if (hadKids) modelMove(E, E.n[R].kids, top[0], W, deep);
+          for (int kk : E.n[R].kids) E.subtree(kk, gone);
+          std::vector<int> merged = E.listOf(top[0]);
+          E.tops.erase(E.tops.begin() + E.topIndex(top[0]));
+          E.n[R].kids = merged;
+          for (int kk : merged) E.n[kk].parent = R;
+        } else if (flavour == 1) {
+          for (int kk : m.n[R].kids) m.subtree(kk, gone);
+          E.n[R].kids = addParsed(E, tree, R);
+        } else {
+          std::vector<int> kids = addParsed(E, tree, R);
+          for (int kk : kids) E.n[R].kids.push_back(kk);
+        }
+        bindParsed(c, w, E, R, m.n[R].p->children, old);
+        settle(c, w, E, W, gone, opname.c_str());
+        c.label("inject:survived");
+        break;
+      }
       case 3: {  // mpt_parse_config with a handler that hands every element to mpt_node_append, started the way mpt_parse_node
                  // seeds its context (current node = target, previous operation = section start): the elements go behind the
                  // children the target has
